@@ -2,6 +2,7 @@ package config
 
 import (
 	"fmt"
+	"net"
 	"reflect"
 )
 
@@ -59,5 +60,20 @@ func checkIsSetRecursive(val reflect.Value) error {
 		}
 	}
 
+	return nil
+}
+
+// Reports whether address has the host:port form that the listeners take (the start-up panics when
+// listening fails).
+func verifyListenAddress(name, address string) error {
+	_, port, err := net.SplitHostPort(address)
+	if err != nil {
+		return fmt.Errorf("%s is not a valid listen address: %v", name, err)
+	}
+	if port != "" {
+		if _, err := net.LookupPort("tcp", port); err != nil {
+			return fmt.Errorf("%s is not a valid listen address: %v", name, err)
+		}
+	}
 	return nil
 }
